@@ -177,17 +177,33 @@ def record_rule(ctx, crate):
     facts = dom_facts(m, adds[0])
     space = False
     repeat = False
+    # String locals some callee may rewrite in place (`!!` expansion takes `&mut line`)
+    rewritten = set()
+    for bb, t, c in m.calls():
+        for a in t["args"]:
+            pl = a.get("move") or a.get("copy")
+            if pl is not None and pl["ty"].replace("&'_ ", "&") == "&mut std::string::String" and not mir.is_pure_callee(c):
+                r = mir.root_local_expr(m.expand_vars(strip_sites(m.operand_expr(a))))
+                if r is not None:
+                    rewritten.add(r)
+    typed = None
     for a, v in facts:
         ea = m.expand_vars(a)
         if ea[0] == "call" and last_seg(ea[1]) == "starts_with" and v is False and \
                 (mir.const_char(ea[2][1]) == " " or const_str(ea[2][1]) == " "):
             space = True
+            r = mir.root_local_expr(ea[2][0])
+            typed = r is not None and r not in rewritten
         if ea[0] == "call" and last_seg(ea[1]) in ("ne", "eq") and any(flow.is_field_named(s, "previous_cmd") for s in mir.subexprs(ea)):
             if (last_seg(ea[1]) == "ne") == bool(v):
                 repeat = True
     ctx.ob("R18-2", "main", "history::add is guarded by !starts_with(' ') and line != previous_cmd", space and repeat,
            key="R18-2|main|guard", where=m.loc(adds[0]), crate=crate.kind,
            detail="guards: " + "; ".join("%s=%s" % (render(a)[:50], v) for a, v in facts[-4:]))
+    ctx.ob("R18-2", "main", "the leading-space test looks at the line as typed, not at a string a callee rewrites in place "
+                            "(`!!` expansion rebuilds the line without its leading blank)", bool(space and typed),
+           key="R18-2|main|typed-line", where=m.loc(adds[0]), crate=crate.kind,
+           detail=None if (space and typed) else "` echo !!` would be recorded although it was typed with a leading space")
     upd = [(bi, si) for bi, si, rhs in flow.assignments_to_field(m, "previous_cmd")]
     ok = bool(upd) and all(m.dominates(adds[0], bi) or set(dom_facts(m, bi)) >= set(facts) for bi, si in upd)
     ctx.ob("R18-2", "main", "previous_cmd is updated under the same guard as the recording", ok,
